@@ -157,7 +157,7 @@ where
     kani::cover!(r.is_ok() && op == 4 && addr(r.unwrap().cast()) != addr(b), "[op4-unfit] shrink moved the block");
     kani::cover!(r.is_ok() && op == 5, "[op5] deallocate then allocate ok");
     kani::cover!(r.is_ok() && op == 6 && ln.size() > 0, "[op6] allocated after giving back one half of a split block");
-    kani::cover!(r.is_ok() && op == 7 && addr(r.unwrap().cast()) != addr(a), "[op7] shrink of a non-newest block to a stricter alignment moved it");
+    kani::cover!(r.is_ok() && op == 7 && addr(r.unwrap().cast()) != addr(a), "[op7-misaligned] shrink of a non-newest block to a stricter alignment moved it");
     kani::cover!(r.is_ok() && op == 8 && ln.size() > la.size(), "[op8] grow of a non-newest block");
     kani::cover!(r.is_ok() && op == 9 && ln.size() > 0, "[op9] allocate after deallocating a non-newest block");
     kani::cover!(r.is_ok() && bump.stats().count() == 2, "[b1] operation created a second chunk");
